@@ -181,6 +181,7 @@ func Load(repo string, overlay map[string][]byte) (*Prog, error) {
 	computeDevirt(p)
 	computeFuncValues(p)
 	adoptMovedBodies(p)
+	computeParamBindings(p)
 	computeNewPackages(p)
 	p.LoadSecs = time.Since(t0).Seconds()
 	return p, nil
